@@ -1548,7 +1548,8 @@ func op_iny(cpu *CPU) {
 // XXX - improve that!
 func op_jmp(cpu *CPU) {
 	switch cpu.StepInfo.Mode {
-	case m_Absolute:
+	case m_Absolute, m_Absolute_X_Indirect:
+		// for (abs,X) Step has already fetched the target from K:(abs+X), wrapping inside the program bank
 		cpu.PC = cpu.StepInfo.Addr
 	case m_Absolute_Indirect:
 		cpu.PC = cpu.nRead16_wrap(0x00, cpu.StepInfo.Addr)
@@ -1579,6 +1580,9 @@ func op_jsr(cpu *CPU) {
 	switch cpu.StepInfo.Mode {
 	case m_Absolute:
 		cpu.PC = cpu.StepInfo.Addr
+	case m_Absolute_X_Indirect:
+		// the target is fetched from K:(abs+X) after the return address has been pushed, wrapping inside the program bank
+		cpu.PC = cpu.nRead16_wrap(cpu.RK, uint16(cpu.StepInfo.EA))
 	default:
 		cpu.PC = cpu.cmdRead16()
 	}
